@@ -50,6 +50,8 @@ import (
 // Everything the actors share is either refinery's own (the SUT) or one of the
 // few harness objects below, each guarded by its own mutex/atomic.
 
+const c35FlakySubsystem = "c35_flaky_subsystem"
+
 const (
 	c35LegacyKey = "c9945edf5d245834089a1bd6cc9ad01e" // classic key: dataset selects the sampler
 	c35EnvKey    = "abcdefghijklmnopqrstuv"           // environment key: /1/auth lookup, environment "env1"
@@ -343,6 +345,7 @@ type c35World struct {
 	files     *c35Files
 	cfg       config.Config
 	peers     *peer.MockPeers
+	health    *health.Health
 	collector *collect.InMemCollector
 	metrics   *metrics.MultiMetrics
 	shrdr     *sharder.DeterministicSharder
@@ -424,6 +427,7 @@ func c35Build(sc c35Scenario, dir string) (*c35World, *c35Fake, []*c35Fake, erro
 		promMetrics = &metrics.PromMetrics{}
 	}
 	tracer := trace.Tracer(noop.Tracer{})
+	w.health = &health.Health{}
 	w.objects = []*inject.Object{
 		{Value: c},
 		{Value: w.peers},
@@ -443,7 +447,7 @@ func c35Build(sc c35Scenario, dir string) (*c35World, *c35Fake, []*c35Fake, erro
 		{Value: "c35", Name: "version"},
 		{Value: samplerFactory},
 		{Value: stressRelief, Name: "stressRelief"},
-		{Value: &health.Health{}},
+		{Value: w.health},
 		{Value: &configwatcher.ConfigWatcher{}},
 		{Value: a},
 		{Value: "c35inst", Name: "instanceID"},
@@ -504,6 +508,8 @@ type c35ActorState struct {
 	id       int
 	n        int // op counter (makes trace/span ids unique per actor)
 	fresh    int // counter behind never-seen trace ids
+	deaths   int // /alive 200 -> 503 transitions seen by this prober
+	lastLive bool
 	executed map[string]int
 	status   map[string]int
 }
@@ -754,6 +760,28 @@ func (a *c35ActorState) exec(op c35Op) {
 			base = pr
 		}
 		a.do(op.Kind, "GET", base+[]string{"/alive", "/ready", "/version"}[op.Arg%3], nil, nil)
+	case c35AlivePoll:
+		k := 20 + 10*(op.Arg%5)
+		for i := 0; i < k && !w.stopped.Load(); i++ {
+			if i%8 == 7 {
+				a.do(op.Kind, "GET", in+"/ready", nil, nil)
+				continue
+			}
+			code, err := c35Request(w.client, "GET", in+"/alive", nil, nil)
+			a.note(op.Kind, code, err)
+			if err == nil {
+				if code == http.StatusOK {
+					a.lastLive = true
+				} else if code == http.StatusServiceUnavailable && a.lastLive {
+					a.lastLive = false
+					a.deaths++
+				}
+			}
+		}
+	case c35HealthFlap:
+		if w.sc.FlakyHealthMs > 0 && !w.stopping.Load() {
+			w.health.Ready(c35FlakySubsystem, true)
+		}
 	case c35ReloadCfg, c35ReloadRules, c35StressFlip:
 		var err error
 		switch op.Kind {
@@ -825,6 +853,11 @@ func c35RunScenario(sc c35Scenario, dir string) c35ChildSummary {
 		return sum
 	}
 	sum.BuildMs = time.Since(t0).Milliseconds()
+	if sc.FlakyHealthMs > 0 {
+		// a subsystem that registers, reports once and then stalls
+		w.health.Register(c35FlakySubsystem, time.Duration(sc.FlakyHealthMs)*time.Millisecond)
+		w.health.Ready(c35FlakySubsystem, true)
+	}
 	deadline := time.Now().Add(time.Duration(sc.DurationMs) * time.Millisecond)
 	hardLimit := time.Now().Add(3 * time.Duration(sc.DurationMs) * time.Millisecond)
 	var wg sync.WaitGroup
@@ -900,6 +933,9 @@ func c35RunScenario(sc c35Scenario, dir string) c35ChildSummary {
 		sum.Stopped = true
 	}
 	for _, st := range states {
+		if st.executed[c35AlivePoll] > 0 {
+			sum.DeathsSeen = append(sum.DeathsSeen, st.deaths)
+		}
 		for k, v := range st.executed {
 			sum.Executed[k] += v
 		}
